@@ -26,6 +26,7 @@ import (
 )
 
 type piece struct {
+	Group  string // "" = core piece; otherwise the feature group the piece belongs to
 	Name   string
 	Prog   []*N
 	Raw    string // syntax-error pieces have only text
@@ -50,29 +51,34 @@ func alphabet() []piece {
 		{Name: "y:=x*2", Prog: []*N{Var("y", Bin("*", Id("x"), Int(2)))}},
 		{Name: "func f", Prog: []*N{FuncDecl("f", nil, Return(Bin("+", Id("x"), Int(100))))}},
 		{Name: "f()", Prog: []*N{Expr(call("f"))}},
-		{Name: "const c", Prog: []*N{Const("c", Int(3))}},
-		{Name: "c=4", Prog: []*N{Set1("c", Int(4))}},
+		{Group: "const", Name: "const c", Prog: []*N{Const("c", Int(3))}},
+		{Group: "const", Name: "c=4", Prog: []*N{Set1("c", Int(4))}},
 		{Name: "undefined", Prog: []*N{Expr(Id("undefined_name"))}},
-		{Name: "print;undefined", Prog: []*N{pr("p"), Expr(Id("undefined_name"))}},
+		{Group: "output", Name: "print;undefined", Prog: []*N{pr("p"), Expr(Id("undefined_name"))}},
 		{Name: "syntax", Raw: ")(", Syntax: true},
 		{Name: "fail", Prog: []*N{Expr(Index(List(Int(1)), Int(5)))}},
-		{Name: "print;fail;print", Prog: []*N{pr("q"), Set1("x", Int(50)), Expr(Index(List(Int(1)), Int(5))), pr("r")}},
-		{Name: "loop", Prog: []*N{ForRange("i", Int(3), Set1("x", Bin("+", Id("x"), Id("i"))))}},
-		{Name: "g:=closure", Prog: []*N{Var("g", Func("", P("a"), Return(Bin("+", Id("a"), Id("x")))))}},
-		{Name: "g(1)", Prog: []*N{Expr(call("g", Int(1)))}},
-		{Name: "x:=2", Prog: []*N{Var("x", Int(2))}},
-		{Name: "y", Prog: []*N{Expr(Id("y"))}},
-		{Name: "if{x:=5;undefined}", Prog: []*N{If(Bool(true), []*N{Var("x", Int(5)), Expr(Bin("+", Id("x"), Id("undefined_name")))}, nil)}},
-		{Name: "for x{c=1}", Prog: []*N{ForRange("x", Int(2), Set1("c", Int(1)))}},
-		{Name: "if{x:=6;x}", Prog: []*N{If(Bool(true), []*N{Var("x", Int(6)), Expr(Id("x"))}, nil)}},
+		{Group: "output", Name: "print;fail;print", Prog: []*N{pr("q"), Set1("x", Int(50)), Expr(Index(List(Int(1)), Int(5))), pr("r")}},
+		{Group: "closure", Name: "loop", Prog: []*N{ForRange("i", Int(3), Set1("x", Bin("+", Id("x"), Id("i"))))}},
+		{Group: "closure", Name: "g:=closure", Prog: []*N{Var("g", Func("", P("a"), Return(Bin("+", Id("a"), Id("x")))))}},
+		{Group: "closure", Name: "g(1)", Prog: []*N{Expr(call("g", Int(1)))}},
+		{Group: "shadow", Name: "x:=2", Prog: []*N{Var("x", Int(2))}},
+		{Group: "shadow", Name: "y", Prog: []*N{Expr(Id("y"))}},
+		{Group: "shadow", Name: "if{x:=5;undefined}", Prog: []*N{If(Bool(true), []*N{Var("x", Int(5)), Expr(Bin("+", Id("x"), Id("undefined_name")))}, nil)}},
+		{Group: "const", Name: "for x{c=1}", Prog: []*N{ForRange("x", Int(2), Set1("c", Int(1)))}},
+		{Group: "shadow", Name: "if{x:=6;x}", Prog: []*N{If(Bool(true), []*N{Var("x", Int(6)), Expr(Id("x"))}, nil)}},
 		// functions nested in functions that read and write a global: made by a factory and called in
 		// the piece that defines them, then called again after later pieces have changed the global
-		{Name: "h:=mk();h()", Prog: []*N{FuncDecl("mk", nil, Return(Func("", nil, Return(Bin("+", Id("x"), Int(1000)))))), Var("h", call("mk")), Expr(call("h"))}},
-		{Name: "h()", Prog: []*N{Expr(call("h"))}},
-		{Name: "w:=mkw();w()", Prog: []*N{FuncDecl("mkw", nil, Return(Func("", nil, Set1("x", Bin("+", Id("x"), Int(10))), Return(Id("x"))))), Var("w", call("mkw")), Expr(call("w"))}},
-		{Name: "w()", Prog: []*N{Expr(call("w"))}},
+		{Group: "factory", Name: "h:=mk();h()", Prog: []*N{FuncDecl("mk", nil, Return(Func("", nil, Return(Bin("+", Id("x"), Int(1000)))))), Var("h", call("mk")), Expr(call("h"))}},
+		{Group: "factory", Name: "h()", Prog: []*N{Expr(call("h"))}},
+		{Group: "factory", Name: "w:=mkw();w()", Prog: []*N{FuncDecl("mkw", nil, Return(Func("", nil, Set1("x", Bin("+", Id("x"), Int(10))), Return(Id("x"))))), Var("w", call("mkw")), Expr(call("w"))}},
+		{Group: "factory", Name: "w()", Prog: []*N{Expr(call("w"))}},
+		// method and attribute names: a rejected piece that is the first to mention a name, another new name, then the name again
+		{Group: "names", Name: "xs:=[1,2]", Prog: []*N{Var("xs", List(Int(1), Int(2)))}},
+		{Group: "names", Name: "xs.append(undefined)", Prog: []*N{Expr(Meth(Id("xs"), "append", Id("undefined_name")))}},
+		{Group: "names", Name: "to_upper", Prog: []*N{Expr(Meth(Str("ab"), "to_upper"))}},
+		{Group: "names", Name: "xs.append(4);xs", Prog: []*N{Expr(Meth(Id("xs"), "append", Int(4))), Expr(Id("xs"))}},
 		// a piece that fails by exhausting the operand stack many frames deep: the session goes on
-		{Name: "overflow", Prog: []*N{FuncDecl("deep", P("n"), Return(Bin("+", Int(1), call("deep", Bin("+", Id("n"), Int(1)))))), Expr(call("deep", Int(0)))}},
+		{Group: "overflow", Name: "overflow", Prog: []*N{FuncDecl("deep", P("n"), Return(Bin("+", Int(1), call("deep", Bin("+", Id("n"), Int(1)))))), Expr(call("deep", Int(0)))}},
 	}
 }
 
@@ -137,7 +143,7 @@ func incremental(env *rt.Env, alpha []piece, seq []int) (steps []stepOut, global
 	}
 	globals = map[string]string{}
 	if m != nil {
-		for _, n := range []string{"x", "y", "c"} {
+		for _, n := range []string{"x", "y", "c", "xs"} {
 			if v, err := m.Get(n); err == nil && v != nil {
 				globals[n] = v.Inspect()
 			}
@@ -164,7 +170,7 @@ func model(alpha []piece, seq []int) (steps []stepOut, globals map[string]string
 	}
 	g := s.Globals()
 	globals = map[string]string{}
-	for _, n := range []string{"x", "y", "c"} {
+	for _, n := range []string{"x", "y", "c", "xs"} {
 		if v, ok := g[n]; ok {
 			globals[n] = v
 		}
@@ -276,25 +282,60 @@ func Check(r *ev.Run, replay string) {
 		r.Set("traces_validated_against_impl", 1)
 		return
 	}
-	depth := 4
+	// quick: the whole alphabet to length 3 and, per feature group, the core pieces plus that group to
+	// length 4; thorough: the whole alphabet to length 4 and core plus each group to length 5
+	depth, fullDepth := 4, 3
 	if r.Thorough() {
-		depth = 5
+		depth, fullDepth = 5, 4
 	}
-	// enumerate all sequences of length <= depth (un-merged); count merged states on the model key
 	var seqs [][]int
-	var rec func(cur []int)
-	rec = func(cur []int) {
-		if len(cur) > 0 {
-			seqs = append(seqs, append([]int{}, cur...))
+	seen := map[string]bool{}
+	enumerate := func(idx []int, maxLen int) {
+		var rec func(cur []int)
+		rec = func(cur []int) {
+			if len(cur) > 0 {
+				k := fmt.Sprint(cur)
+				if !seen[k] {
+					seen[k] = true
+					seqs = append(seqs, append([]int{}, cur...))
+				}
+			}
+			if len(cur) == maxLen {
+				return
+			}
+			for _, k := range idx {
+				rec(append(cur, k))
+			}
 		}
-		if len(cur) == depth {
-			return
-		}
-		for k := range alpha {
-			rec(append(cur, k))
+		rec(nil)
+	}
+	var all []int
+	var core []int
+	groupNames := []string{}
+	for i, p := range alpha {
+		all = append(all, i)
+		if p.Group == "" {
+			core = append(core, i)
+		} else if len(groupNames) == 0 || groupNames[len(groupNames)-1] != p.Group {
+			known := false
+			for _, g := range groupNames {
+				known = known || g == p.Group
+			}
+			if !known {
+				groupNames = append(groupNames, p.Group)
+			}
 		}
 	}
-	rec(nil)
+	enumerate(all, fullDepth)
+	for _, g := range groupNames {
+		idx := append([]int{}, core...)
+		for i, p := range alpha {
+			if p.Group == g {
+				idx = append(idx, i)
+			}
+		}
+		enumerate(idx, depth)
+	}
 	var n int64
 	states := make([]map[string]struct{}, 16)
 	envs := make([]*rt.Env, 16)
@@ -328,20 +369,22 @@ func Check(r *ev.Run, replay string) {
 	for w := 0; w < 16; w++ {
 		<-done
 	}
-	all := map[string]struct{}{}
+	allStates := map[string]struct{}{}
 	for _, s := range states {
 		for k := range s {
-			all[k] = struct{}{}
+			allStates[k] = struct{}{}
 			r.Outcome(k)
 		}
 	}
 	longHistory(r, alpha)
-	r.Set("states", len(all))
+	r.Set("states", len(allStates))
 	r.Set("transitions", len(seqs))
 	r.Set("traces_validated_against_impl", len(seqs))
 	r.Set("alphabet_size", len(alpha))
 	r.Set("max_history_length", depth)
-	r.Set("rule", fmt.Sprintf("every sequence of 1..%d pieces over an %d-piece alphabet (definitions, uses, a loop, a closure, functions made by a factory that read and write a global, a constant; pieces the compiler must reject: undefined name, constant assignment, redeclaration, a rejected piece with a side-effecting prefix, a syntax error; pieces that fail at run time, one of them mid-piece) fed to one compiler and one VM as cmd/risor/repl does; oracle: per-piece status/value/output and final globals equal the reference session model (a rejected piece has no effect; a failed piece keeps its effects up to the failure); states = distinct (per-piece outcomes, globals) of the model, transitions = histories executed on the implementation", depth, len(alpha)))
+	r.Set("feature_groups", groupNames)
+	r.Set("full_alphabet_history_length", fullDepth)
+	r.Set("rule", fmt.Sprintf("every sequence of 1..%d pieces over the core pieces plus one feature group at a time, and every sequence of 1..%d pieces over the whole %d-piece alphabet (definitions, uses, a loop, a closure, functions made by a factory that read and write a global, a constant; pieces the compiler must reject: undefined name, constant assignment, redeclaration, a rejected piece with a side-effecting prefix, a rejected piece that is the first to mention a method name, a syntax error; pieces that fail at run time, one of them mid-piece) fed to one compiler and one VM as cmd/risor/repl does; oracle: per-piece status/value/output and final globals equal the reference session model (a rejected piece has no effect; a failed piece keeps its effects up to the failure); states = distinct (per-piece outcomes, globals) of the model, transitions = histories executed on the implementation", depth, fullDepth, len(alpha)))
 }
 
 // longHistory: a REPL session of many pieces must not run out of VM capacity.
